@@ -22,7 +22,7 @@ type C03Case struct {
 	Tree    kit.TreeCase     `json:"tree"`
 	Steps   []kit.SubmitStep `json:"steps"`
 	FlushAt []int            `json:"flush_at"`
-	Inner   int              `json:"inner,omitempty"` // 0 mem, 1 cache(mem)
+	Inner   int              `json:"inner,omitempty"` // 0 mem, 1 cache(mem), 2 bolt, 3 cache(bolt)
 }
 
 func genC03(t *rapid.T) C03Case {
@@ -36,6 +36,9 @@ func genC03(t *rapid.T) C03Case {
 	}
 	tc := kit.GenTree(t, cfg)
 	c := C03Case{Tree: tc, Steps: kit.GenSchedule(t, len(tc.Blocks), 20), Inner: kit.Uniform(t, 2, "inner")}
+	if kit.Thorough() || kit.Chance(t, 8, "bolt") {
+		c.Inner = kit.Uniform(t, 4, "inner4") // thorough (and a few quick cases): also Bolt and CacheDB(Bolt)
+	}
 	n := rapid.IntRange(0, 10).Draw(t, "nflush")
 	for i := 0; i < n; i++ {
 		c.FlushAt = append(c.FlushAt, kit.Uniform(t, 3*len(tc.Blocks)+4, "flushat"))
@@ -91,7 +94,7 @@ func submitAll(tr *kit.Tree, node *kit.Node, steps []kit.SubmitStep, audit bool)
 
 func runC03(c C03Case, cs *kit.CaseStats) error {
 	tr := kit.BuildTree(c.Tree)
-	innerName := []string{"mem", "cache(mem)"}[((c.Inner%2)+2)%2]
+	innerName := []string{"mem", "cache(mem)", "bolt", "cache(bolt)"}[((c.Inner%4)+4)%4]
 	inner, err := kvm.NewBackend(innerName)
 	if err != nil {
 		return fmt.Errorf("INFRA: %v", err)
